@@ -727,6 +727,15 @@ func (e *itArr) itFlavours() {
 			}
 			if k := hx.ErrKind(err); k != want {
 				e.violation("C13", fmt.Sprintf("%s: invalid range [%d,%d) of %d rejected with %s, want %s", name, lo, hi, n, k, want))
+			} else {
+				// the refusal names the range that was asked for (and the bounds it violates)
+				d := hx.ErrNames(err, "InvalidSliceIndex", lo, hi)
+				if want == "SliceOutOfBounds:User" {
+					d = hx.ErrNames(err, "SliceOutOfBounds", lo, hi, 0, n)
+				}
+				if d != "" {
+					e.violation("C13", fmt.Sprintf("%s: invalid range [%d,%d) of %d: %s", name, lo, hi, n, d))
+				}
 			}
 			if len(got) != 0 {
 				e.violation("C13", fmt.Sprintf("%s: rejected range still yielded %d elements", name, len(got)))
